@@ -75,6 +75,18 @@ def ufunc_groups(rt, tier, rng):
                     G.append(dict(base, operands=[s, T(sb)]))
                     G.append(dict(base, operands=[T(sa, "float32"), s]))
                     G.append(dict(base, operands=[T(sa, "int64"), s]))
+            # operands holding the special values 0, 1, 2 exactly (0-d / 1-element tensors and arrays): operator shortcuts must not drop them from the graph
+            for v in (0.0, 1.0, 2.0, 3.0):
+                for sb in ((), (1,), (3,)):
+                    for b in (T(sb, val=v), T(sb, const=True, val=v), A(sb, val=v), T(sb, "float32", val=v)):
+                        G.append(dict(base, operands=[T((2, 3)), b]))
+                        G.append(dict(base, operands=[T((2, 3), const=True), b]))
+                        G.append(dict(base, operands=[b, T((2, 3))]))
+                        if sb == ():
+                            G.append(dict(base, operands=[T(()), b]))
+                    if sb in ((), (1,)):
+                        G.append(dict(base, operands=[T((2, 3)), T(sb, val=v)], mode="inplace"))
+                        G.append(dict(base, operands=[T((2, 3)), A(sb, val=v)], mode="inplace"))
             for a, b in ((T((2, 3)), T((3,))), (T((2, 3)), T((2, 3), const=True)), (T((2, 3), "float32"), A((2, 3))), (A((2, 3)), T((2, 3)))):
                 for out in (dict(kind="array", shape=[2, 3], dtype="float64"), dict(kind="tensor", shape=[2, 3], dtype="float64"), dict(kind="tensor", shape=[2, 3], dtype="float64", const=True)):
                     G.append(dict(base, operands=[a, b], out=out))
@@ -86,6 +98,26 @@ def ufunc_groups(rt, tier, rng):
                         G.append(dict(base, operands=[a, b], mode="inplace", target_nonleaf=nonleaf))
                 for s in SCALARS[:4]:
                     G.append(dict(base, operands=[T(sa), s], mode="inplace"))
+    return G
+
+
+def ufunc_method_groups(rt):
+    """ufunc METHODS on tensors: whatever numpy.<u>.<method>(tensors) does, mygrad.<u>.<method> must do too, and a returned value must be NumPy's"""
+    G = []
+    for u, (f, _c) in sorted(rt["np_ufunc"].items()):
+        nin = getattr(np, u).nin
+        dom = DOMAIN.get(u, "any")
+        base = dict(family="ufunc_method", fn=f, domain=dom)
+        if nin != 2 or u == "matmul":
+            continue
+        for a in (T((3,)), T((2, 3)), T((3,), const=True)):
+            G.append(dict(base, method="reduce", operands=[a]))
+            G.append(dict(base, method="reduce", operands=[a], kw={"axis": 0}))
+            G.append(dict(base, method="accumulate", operands=[a]))
+            G.append(dict(base, method="reduceat", operands=[a], margs=[[0, 1, 2]]))
+            G.append(dict(base, method="reduceat", operands=[a], margs=[[0, 2]]))
+        for a, b in ((T((3,)), T((3,))), (T((3,)), T((2,))), (T((2, 3)), T((3,))), (T((3,)), A((3,))), (A((3,)), T((3,))), (T((3,), const=True), T((3,), const=True))):
+            G.append(dict(base, method="outer", operands=[a, b]))
     return G
 
 
@@ -193,13 +225,13 @@ FIELDS = ("exc", "is_tensor", "value", "const", "grads", "out_target", "out_grad
 
 def describe(o):
     if o["kind"] in ("tensor", "array", "list"):
-        return "%s%s%s%s" % ({"tensor": "T", "array": "A", "list": "L"}[o["kind"]], tuple(o["shape"]), "" if o["dtype"] == "float64" else ":" + o["dtype"],
+        return "%s%s%s%s%s" % ({"tensor": "T", "array": "A", "list": "L"}[o["kind"]], tuple(o["shape"]), "=%s" % o["val"] if "val" in o else "", "" if o["dtype"] == "float64" else ":" + o["dtype"],
                              {None: "", True: ":const", False: ":nonconst"}[o.get("const")] + (":" + o["layout"] if o.get("layout") else ""))
     return "%s(%s)" % (o["kind"], o.get("val"))
 
 
 def group_title(g):
-    extra = "".join(" %s=%s" % (k, json.dumps(g[k])) for k in ("args", "kw", "out", "where", "dtype", "mode", "spec") if k in g)
+    extra = "".join(" %s=%s" % (k, json.dumps(g[k])) for k in ("method", "margs", "args", "kw", "out", "where", "dtype", "mode", "spec") if k in g)
     return "%s(%s)%s" % (g["fn"], ", ".join(describe(o) for o in g["operands"]), extra)
 
 
@@ -210,7 +242,7 @@ def run(rep, work, tier, seed, props, replay=None):
         raise HarnessError("routes translator refused: %s" % problems)
     rt = tables["runtime"]
     kf = {f["name"]: f for f in known_findings("C11") if f["status"] == "known"}
-    groups = ufunc_groups(rt, tier, rng) + func_groups(rt)
+    groups = ufunc_groups(rt, tier, rng) + func_groups(rt) + ufunc_method_groups(rt)
     nod = nodiff_tasks(rt)
     seeds = [0, 1] if tier == "thorough" else [0]
     if replay is not None and "group" in replay:
@@ -234,6 +266,13 @@ def run(rep, work, tier, seed, props, replay=None):
         sp = r["spellings"]
         ref_name = "mg" if "mg" in sp else "mg_out"
         ref = sp[ref_name]
+        if t["family"] == "ufunc_method":
+            arr_sig = sp.pop("numpy_on_arrays")
+            for name in ("mg", "np"):
+                s = sp[name]
+                if s["exc"] is None and (arr_sig["exc"] is not None or s.get("value") != arr_sig.get("value")):
+                    bad.append({"kind": "numpy.%s.%s on tensors returned a value that is not NumPy's result on the underlying arrays: %s -- spelling %s" % (t["fn"], t["method"], group_title(t), name),
+                                "group": dict(t), "spelling": name, "reference": "numpy_on_arrays", "fields": ["value"], "observed": {"value": s.get("value")}, "expected": {"value": arr_sig.get("value"), "exc": arr_sig["exc"]}})
         if ref["exc"]:
             raised_groups += 1
         for name, s in sp.items():
@@ -302,7 +341,7 @@ def run(rep, work, tier, seed, props, replay=None):
     })
     rep.assumptions += ["operand templates per NumPy function override are written by hand in harness/c11.py (a new override without a template is reported as a harness error for no-diff functions; "
                         "new ufuncs are picked up from the dispatch table automatically)",
-                        "ufunc methods (reduce, accumulate, outer, at) are not compared"]
+                        "ufunc methods reduce / accumulate / reduceat / outer are compared (mygrad refuses them today); `at` is not"]
 
 
 def classify_known(kf, t, name, diffs, s, ref):
